@@ -21,7 +21,8 @@ from nightsim.world import make_world
 PROP = "C04"
 PROP_NO = 4
 LEVEL = "exploration"
-MONITORS = ["nonparametric_intervals"]
+MONITORS = ["nonparametric_intervals", "featurizer"]
+SOLVER_SEAM = True  # no faults are injected here: the seam only records the fitted coefficients of every quantile regression
 COV_ALPHAS = [0.5, 0.7, 0.9]
 RULE = ("one evaluation = one captured nonparametric interval computation (poll x estimand x level) re-derived by R3, or one coverage "
         "night scored against ground truth; distinct = distinct (level bucket, robust, number of calibration units bucket, ties in "
@@ -53,6 +54,9 @@ def make_spec(st, idx, tier):
         wk["equal_size"] = True  # ties in weights
     spec = C.state_spec(st, tier, wk, PROFILE, FEED, min_units=30)
     spec["kind"] = "calibration"
+    for o in spec["ops"]:
+        if o["k"] == "poll":
+            o["record_fits"] = True
     return spec
 
 
@@ -118,11 +122,40 @@ class Checker(C.BaseChecker):
         pis = mon.get("nonparametric_pi", [])
         if len(bounds) != len(pis):
             return [self.v("monitor", f"{len(bounds)} bound computations vs {len(pis)} interval computations captured")]
-        for b, cap in zip(bounds, pis):
+        fits = rec.extra.get("fits", [])
+        holds = mon.get("feat_holdout", [])
+        A = len(rec.profile["prediction_intervals"])
+        for j, (b, cap) in enumerate(zip(bounds, pis)):
             if "monitor_error" in cap:
                 out.append(self.v("monitor", str(cap)[:200]))
                 continue
             st.evaluations += 1
+            # the conformity scores must describe the SAME lower / upper models whose predictions are reported for the
+            # outstanding units: recompute them from the fitted coefficients (solver seam) and the calibration design matrix
+            base_i = (j // A) * (1 + 2 * A) + 1 + 2 * (j % A) if A else None
+            if base_i is not None and len(fits) == len(holds) and base_i + 1 < len(fits) and fits[base_i].get("coef") is not None:
+                Xc, Xn = holds[base_i]["out"].to_numpy(dtype=float), holds[base_i + 1]["out"].to_numpy(dtype=float)
+                cl_, cu_ = np.asarray(fits[base_i]["coef"])[-1], np.asarray(fits[base_i + 1]["coef"])[-1]
+                conf_ = cap["conformalization"]
+                if Xc.shape[0] == len(conf_) and Xn.shape[0] == len(b["lower"]) and Xc.shape[1] == len(cl_):
+                    res = conf_[f"residuals_{cap['estimand']}"].to_numpy(dtype=float)
+                    want_l, want_u = Xc @ cl_ - res, res - Xc @ cu_
+                    got_l, got_u = conf_["lower_bounds"].to_numpy(dtype=float), conf_["upper_bounds"].to_numpy(dtype=float)
+                    if not (np.allclose(got_l, want_l, rtol=1e-9, atol=1e-9) and np.allclose(got_u, want_u, rtol=1e-9, atol=1e-9)):
+                        i = int(np.argmax(np.abs(got_l - want_l) + np.abs(got_u - want_u)))
+                        out.append(self.v("scores_not_of_reported_models", f"level {cap['alpha']}: calibration unit #{i} has scores (lower {got_l[i]}, upper {got_u[i]}) but the fitted lower / upper "
+                                                                             f"quantile models give ({want_l[i]}, {want_u[i]}): the correction is computed for other intervals than the ones reported",
+                                          robust=bool(cap["robust"])))
+                    if not (np.allclose(b["lower"], Xn @ cl_, rtol=1e-9, atol=1e-9) and np.allclose(b["upper"], Xn @ cu_, rtol=1e-9, atol=1e-9)):
+                        out.append(self.v("unadjusted_bounds_not_of_fitted_models", f"level {cap['alpha']}: unadjusted bounds of outstanding units differ from the fitted models' predictions",
+                                          robust=bool(cap["robust"])))
+                    st.probes["scores_recomputed_from_fitted_models"] += 1
+                    if (Xn @ cl_ > Xn @ cu_).any() or (Xc @ cl_ > Xc @ cu_).any():
+                        st.probes["lower_and_upper_quantile_fits_cross"] += 1
+                else:
+                    st.probes["score_recomputation_skipped_shape"] += 1
+            else:
+                st.probes["score_recomputation_skipped_index"] += 1
             alpha, e, robust = cap["alpha"], cap["estimand"], cap["robust"]
             conf = cap["conformalization"]
             wcol = f"last_election_results_{e}"
